@@ -330,8 +330,9 @@ Qed.
 (* ================================================================ EXTENSION X4: C10 across restarts of Watcher.Run ================================
    Model: model/EvmGuardianSet.v.  The Watcher value outlives Run: the supervisor re-enters `w.Run` on the same value after every
    errC (failed guardian-set fetch, failed block-time lookup of a log, three failed polls, subscription error).  What survives:
-   w.pending and w.currentGuardianSet.  What is re-created: w.ethConn = a NEW BlockPollConnector whose poller is OFF (enabled =
-   false) until the next log is inserted, and whose lastBlock is the node's head at that moment.  Operations: GFetch (ticker
+   w.pending and w.currentGuardianSet.  What is re-created: w.ethConn = a NEW BlockPollConnector whose poller starts OFF, is
+   switched on at once when messages are still pending (repo commit b274c5a; before it: only by the next log), and whose lastBlock
+   is the node's head at that moment.  Operations: GFetch (ticker
    fetch of the guardian set), GRestart (Run re-entered; its initial fetch), GEvm (log / head / re-observation as above), GPoll
    (one poller tick: the heads it publishes are scanned).  [gtrace] = the EVM-watcher operations a history executes. *)
 From WH Require Import gen.ExtractedEvmGs model.EvmGuardianSet proofs.EvmGuardianSetProofs.
@@ -373,23 +374,38 @@ Theorem C10_restart_refines_watcher : forall (K : Type) c (ops : list (gop K)) s
   evm_outs (snd (grun c s ops)) = filter not_died (concat (snd (run (g_evm c) (w_pending s) (gtrace c s ops)))).
 Proof. intros K. exact grun_evm. Qed.
 
-(* LIVENESS after a restart.  (1) The new poller is off although w.pending still holds the entries of the previous Run: while no
-   further log arrives (poller ticks, guardian-set fetches, re-observation requests, more restarts - whatever the chain does) no
-   head is processed and nothing pending is forwarded, dropped or abandoned.  Whether that is a violation of C10's "forwarded
-   exactly once after the depth is reached" is reported, not alarmed (reports/report_ext_X4.md). *)
-Theorem C10_restart_stalls_until_next_log : forall (K : Type) c s (a : gans K) h0 (ops : list (gop K)),
-  Forall no_log_no_head ops ->
-  let s1 := fst (gstep c s (GRestart a h0)) in
-  w_pending (fst (grun c s1 ops)) = w_pending s /\ w_enabled (fst (grun c s1 ops)) = false /\
-  (forall k x, In x (evm_outs (snd (grun c s1 ops))) -> decisionb k x = false).
-Proof.
-  intros K c s a h0 ops Hq s1.
-  destruct (restart_stalls_until_next_log c ops s1 eq_refl Hq) as [H1 [H2 H3]].
-  repeat apply conj; [rewrite H1; reflexivity|exact H2|exact H3].
-Qed.
+(* LIVENESS after a restart.  Before repo commit b274c5a the new poller stayed off although w.pending still held the entries of the
+   previous Run (witness below); the repaired Run switches it on at once (`if len(w.pending) > 0 { EnablePoller() }`, whose presence
+   the extractor reads from the source).  (1) In EVERY reachable state - any number of restarts, failing fetches, logs, heads,
+   re-observations, poller ticks - messages pending imply that the block poller is switched on *)
+Theorem C10_poller_on_while_pending : forall (K : Type) c (ops : list (gop K)),
+  w_pending (fst (grun c winit ops)) <> [] -> w_enabled (fst (grun c winit ops)) = true.
+Proof. intros K c ops. exact (poller_on_while_pending c ops winit winit_inv). Qed.
 
-(* (2) the next log of ANY transaction switches the poller on, and the first tick that then publishes a head at or beyond the
-   depth forwards the left-over entry if its receipt is unchanged - however far the chain has advanced meanwhile *)
+(* (1') hence, after ANY such history and with no further log: a pending message is forwarded by the first poller tick that publishes
+   a head at or beyond its depth, if its receipt is unchanged - however far the chain has advanced while Run was down *)
+Theorem C10_restart_liveness : forall (K : Type) c (pre : list (gop K)) k p answers orc n sf last' err,
+  let s := fst (grun c winit pre) in
+  find k (w_pending s) = Some p -> wf_p p ->
+  poll_tick true (w_last s) answers = (last', [(n, sf)], err) ->
+  0 <= n < two64 -> p_height p + expected_of (c_wait (g_evm c)) sf p <= n ->
+  orc k = mkAns (Some (1, k_bh k)) ENone ->
+  In (WEvm (Confirmed k (p_msg p))) (snd (@gstep K c s (GPoll answers orc))) /\
+  find k (w_pending (fst (@gstep K c s (GPoll answers orc)))) = None.
+Proof. intros K. exact restart_liveness. Qed.
+
+(* REFUTED for the shape of Run before repo commit b274c5a (gstep_gen false = the same machine without the guard): a restart leaves
+   the poller off whatever is pending, and poller ticks - however many, whatever the node answers - process no head, emit nothing and
+   leave w.pending as it is (findings/C10_restart_pending_stalled.json) *)
+Theorem C10_restart_without_guard_stalls_refuted : forall (K : Type) c s (a : gans K) h0 (polls : list (list (option Z) * (key -> rans))),
+  let s1 := fst (gstep_gen false c s (GRestart a h0)) in
+  w_enabled s1 = false /\
+  w_pending (fst (grun_gen false c s1 (map (fun p => @GPoll K (fst p) (snd p)) polls))) = w_pending s /\
+  Forall (fun l => l = []) (snd (grun_gen false c s1 (map (fun p => @GPoll K (fst p) (snd p)) polls))).
+Proof. intros K. exact unrepaired_restart_stalls. Qed.
+
+(* (2) the one-step form for an arbitrary state: a delivered log switches the poller on, and the first tick that then publishes a head at
+   or beyond the depth of a pending entry forwards it if its receipt is unchanged *)
 Theorem C10_restart_resumes_after_next_log : forall (K : Type) c s e tm k p answers orc n sf last' err,
   let s1 := fst (@gstep K c s (GEvm (OLog e (Some tm)))) in
   NoDup (keys (w_pending s)) -> find k (w_pending s1) = Some p -> wf_p p ->
@@ -419,8 +435,9 @@ Definition ex_ans (i : Z) (ks : list Z) : gans Z := mkGAns (Some i) (fun j => if
 Definition ex_evA : ev := mkEv 1 1 1000 1 1 2 8 2 1.          (* log A, block 1000, level 2 *)
 Definition ex_evB : ev := mkEv 2 2 1001 1 2 1 9 2 2.          (* log B: its block-time lookup fails *)
 Definition ex_evC : ev := mkEv 3 3 1100 1 3 1 9 2 3.          (* log C, after the restart *)
-(* start; log A; upgrade seen by the next tick; log B kills Run; restart (no new set: index unchanged); the chain runs on: polls
-   and a re-observation request change nothing; log C; one poll publishes head 1200: A is forwarded, C too; B never *)
+(* start; log A; upgrade seen by the next tick; log B kills Run; restart (no new set: index unchanged) - A is still pending, so the new
+   poller is on: the first tick (head 1150, the chain ran on while Run was down) forwards A; nothing pending: later ticks do nothing;
+   log C; one more tick forwards C; B never *)
 Definition ex_ghist : list (gop Z) :=
   [GRestart (ex_ans 0 [11; 12]) 990; GEvm (OLog ex_evA (Some 1600000007)); GFetch (ex_ans 1 [11; 12; 13]);
    GEvm (OLog ex_evB None);
@@ -431,28 +448,41 @@ Example C10_example_restart :
   let r := grun exg winit ex_ghist in
   sent (snd r) = [([11; 12], 0); ([11; 12; 13], 1)] /\
   nth 3 (snd r) [] = [WDied] /\
-  w_pending (fst (grun exg winit (firstn 8 ex_ghist))) = [(key_of ex_evA, pm_of exc ex_evA 1600000007)] /\
-  w_enabled (fst (grun exg winit (firstn 8 ex_ghist))) = false /\
-  evm_outs (snd (grun exg winit (firstn 8 ex_ghist))) = [] /\
-  (forall k m, In (WEvm (Confirmed k m)) (last (snd r) []) <-> (k = key_of ex_evA /\ m = msg_of exc ex_evA 1600000007) \/ (k = key_of ex_evC /\ m = msg_of exc ex_evC 1600000021)) /\
+  w_pending (fst (grun exg winit (firstn 5 ex_ghist))) = [(key_of ex_evA, pm_of exc ex_evA 1600000007)] /\
+  w_enabled (fst (grun exg winit (firstn 5 ex_ghist))) = true /\
+  flat_map (@evm_of Z) (nth 5 (snd r) []) = [Looked (key_of ex_evA); Confirmed (key_of ex_evA) (msg_of exc ex_evA 1600000007)] /\
+  flat_map (@evm_of Z) (nth 7 (snd r) []) = [] /\
+  flat_map (@evm_of Z) (last (snd r) []) = [Looked (key_of ex_evC); Confirmed (key_of ex_evC) (msg_of exc ex_evC 1600000021)] /\
   w_pending (fst r) = [] /\
   (forall x, In x (evm_outs (snd r)) -> aboutb (key_of ex_evB) x = false).
 Proof.
   cbv zeta. repeat apply conj; try (vm_compute; reflexivity).
-  - intros k m. vm_compute. split.
-    + intros H. repeat (destruct H as [H|H]; [try discriminate H; inversion H; subst; (left; split; reflexivity) || (right; split; reflexivity)|]). contradiction.
-    + intros [[H1 H2]|[H1 H2]]; subst; [right; right; right; left; reflexivity|right; left; reflexivity].
-  - intros x H. vm_compute in H. repeat (destruct H as [H|H]; [subst x; reflexivity|]). contradiction.
+  intros x H. vm_compute in H. repeat (destruct H as [H|H]; [subst x; reflexivity|]). contradiction.
 Qed.
 
-(* the hypotheses of the stall theorem and of the lost-log theorem hold in that history *)
+(* the same history on the shape of Run before repo commit b274c5a: after the restart the poller is off, the ticks at heads 1150 and
+   1160 process nothing although A has been confirmable since head 1002, and A is forwarded only by the tick that follows log C *)
+Example C10_example_restart_without_guard_refuted :
+  let r := grun_gen false exg winit ex_ghist in
+  w_pending (fst (grun_gen false exg winit (firstn 8 ex_ghist))) = [(key_of ex_evA, pm_of exc ex_evA 1600000007)] /\
+  w_enabled (fst (grun_gen false exg winit (firstn 8 ex_ghist))) = false /\
+  evm_outs (snd (grun_gen false exg winit (firstn 8 ex_ghist))) = [] /\
+  (forall k m, In (WEvm (Confirmed k m)) (last (snd r) []) <-> (k = key_of ex_evA /\ m = msg_of exc ex_evA 1600000007) \/ (k = key_of ex_evC /\ m = msg_of exc ex_evC 1600000021)).
+Proof.
+  cbv zeta. repeat apply conj; try (vm_compute; reflexivity).
+  intros k m. vm_compute. split.
+  - intros H. repeat (destruct H as [H|H]; [try discriminate H; inversion H; subst; (left; split; reflexivity) || (right; split; reflexivity)|]). contradiction.
+  - intros [[H1 H2]|[H1 H2]]; subst; [right; right; right; left; reflexivity|right; left; reflexivity].
+Qed.
+
+(* the hypotheses of the liveness theorem and of the lost-log theorem hold in that history *)
 Example C10_example_restart_hypotheses :
-  Forall (@no_log_no_head Z) [GPoll [Some 1150] ex_ok; GFetch (ex_ans 1 [11; 12; 13]); GPoll [Some 1160] ex_ok] /\
+  find (key_of ex_evA) (w_pending (fst (grun exg winit (firstn 5 ex_ghist)))) = Some (pm_of exc ex_evA 1600000007) /\
+  poll_tick true (w_last (fst (grun exg winit (firstn 5 ex_ghist)))) [Some 1150] = (1150, [(1150, false)], false) /\
   no_relog (key_of ex_evB) (gtrace exg (fst (grun exg winit (firstn 3 ex_ghist))) (skipn 4 ex_ghist)).
 Proof.
-  split.
-  - repeat constructor.
-  - intros o H. vm_compute in H. repeat (destruct H as [H|H]; [subst o; reflexivity|]). contradiction.
+  repeat apply conj; try (vm_compute; reflexivity).
+  intros o H. vm_compute in H. repeat (destruct H as [H|H]; [subst o; reflexivity|]). contradiction.
 Qed.
 
 Print Assumptions C10_scan_forward_safe.
@@ -477,6 +507,8 @@ Print Assumptions C10_restart_forward_safe_math.
 Print Assumptions C10_restart_at_most_once.
 Print Assumptions C10_restart_pending_keys_distinct.
 Print Assumptions C10_restart_refines_watcher.
-Print Assumptions C10_restart_stalls_until_next_log.
+Print Assumptions C10_poller_on_while_pending.
+Print Assumptions C10_restart_liveness.
+Print Assumptions C10_restart_without_guard_stalls_refuted.
 Print Assumptions C10_restart_resumes_after_next_log.
 Print Assumptions C10_log_lost_when_block_time_lookup_fails.
